@@ -71,6 +71,21 @@ func workersRules(c *Ctx) {
 				}
 			}
 		}
+		// the submitted function runs only in a counted worker: Call itself (and Wrap) never invokes it
+		{
+			var dyn []ssa.Instruction
+			for _, in := range an.AllInstrs(q.fn, func(in ssa.Instruction) bool {
+				cc := an.CallCommonOf(in)
+				if cc == nil || cc.IsInvoke() || cc.StaticCallee() != nil {
+					return false
+				}
+				_, isB := cc.Value.(*ssa.Builtin)
+				return !isB
+			}) {
+				dyn = append(dyn, in)
+			}
+			q.add("WR", "the submitted function is run by a worker, never by the caller", len(dyn) == 0, pickS(len(dyn) == 0, "Call contains no call of a function value", "Call invokes a function value itself: that execution holds no worker slot, so more functions than requested can run at once and Wait / Count do not see it"), dyn...)
+		}
 		for _, s := range an.FieldStores(q.fn, "Workers.target") {
 			ok := s.(*ssa.Store).Val == ssa.Value(q.fn.Params[1])
 			q.add("PROV", "target is the requested count", ok, "stores the count parameter", s)
